@@ -325,8 +325,8 @@ func runEzCase(c ezCase, dir string) (mis []ezMis) {
 		cancel()
 		if c.Watch {
 			// the watcher releases its inotify instance asynchronously; the next case must not start before
-			if left := waitNoDialsGoroutines(3 * time.Second); len(left) > 0 {
-				mis = append(mis, ezMis{step, "leak", fmt.Sprintf("%d library goroutines still running 3 s after the context was cancelled", len(left))})
+			if left := waitNoDialsGoroutines(10 * time.Second); len(left) > 0 {
+				mis = append(mis, ezMis{step, "leak", fmt.Sprintf("%d library goroutines still running 10 s after the context was cancelled", len(left))})
 			}
 		}
 	}()
@@ -517,7 +517,7 @@ func runEzCase(c ezCase, dir string) (mis []ezMis) {
 		nerr0, ncb0 := nerr, len(newCfgs)
 		mu.Unlock()
 		atomicWrite(path, ezFileText(c.Fmt, vals, ch.State != "ok", c.ezBKey()))
-		deadline := time.Now().Add(3 * time.Second)
+		deadline := time.Now().Add(20 * time.Second) // (only used up when the change never shows: a loaded machine must not look like a lost event)
 		ok := false
 		for time.Now().Before(deadline) {
 			mu.Lock()
@@ -594,7 +594,7 @@ func ezMain(args []string) {
 		out.WriteByte('\n')
 		n++
 	}
-	leaked := waitNoDialsGoroutines(3 * time.Second)
+	leaked := waitNoDialsGoroutines(10 * time.Second)
 	b, _ := json.Marshal(map[string]any{"final": true, "cases": n, "leaked": len(leaked)})
 	out.Write(b)
 	out.WriteByte('\n')
